@@ -494,6 +494,17 @@ def with_restart(sc, rnd):
     return sc
 
 
+def with_store_fault(sc, rnd):
+    """The store stops answering at some point of an aggregation history (lookups and writes fail from then on)."""
+    steps = sc["steps"]
+    if len(steps) < 4 or any(st["ev"] in ("StoreDown", "ReqCap", "Restart") for st in steps):
+        return sc
+    pos = rnd.randrange(2, len(steps))
+    sc["steps"] = steps[:pos] + [{"ev": "StoreDown", "a": {"x": 0}}] + steps[pos:]
+    sc["src"] = sc.get("src", "") + "+storedown"
+    return sc
+
+
 def gen_scenarios(seed_, n, profile):
     rnd = random.Random("%s-%d" % (profile, seed_))
     g = Gen(rnd)
@@ -503,6 +514,8 @@ def gen_scenarios(seed_, n, profile):
         xs = x if isinstance(x, list) else [x]
         if profile in ("aggregation", "setchange", "cleanup", "governance", "adversarial"):
             xs = [with_restart(sc, rnd) if rnd.random() < 0.15 else sc for sc in xs]
+        if profile in ("aggregation", "setchange", "governance", "permutations"):
+            xs = [with_store_fault(sc, rnd) if rnd.random() < 0.08 else sc for sc in xs]
         res += xs
     return res
 
@@ -630,7 +643,7 @@ def attribute(rej, line):
         invalid_obs = o["signer"] in ("ERR", "JUNK") or o["signer"] != o["claimed"] or o["over"] != o["d"]
         # C03: a message changes state only if validly signed by a member of the *applicable* set, so the recorded
         # signers / the set of entries differing from what the membership rules dictate speaks to C03 as well
-        if invalid_obs or comps & {"agg-sigs", "agg-keys"}:
+        if invalid_obs or comps & {"agg-sigs", "agg-keys", "agg-snap"}:
             props.add("C03")
     # C01 speaks about what is stored / broadcast and about the state those decisions are made from:
     # the guardian-set snapshot, the node's own VAA, the recorded signers, the current set; and about
